@@ -232,6 +232,19 @@ func (p *parser) pegText(node *node32) string {
 	return ""
 }
 
+// ownText returns the text matched by the PegText that is a direct child of
+// node. Unlike pegText it does not descend, so the text of a nested rule (the
+// IntConstant inside the Exponent of a DoubleConstant) is not mistaken for it.
+func (p *parser) ownText(node *node32) string {
+	for n := node.up; n != nil; n = n.next {
+		if n.pegRule == rulePegText {
+			// the span may end with the blanks that the nested IntConstant consumed
+			return strings.TrimRight(string(p.buffer[n.begin:n.end]), " \t\v")
+		}
+	}
+	return p.pegText(node)
+}
+
 func (p *parser) parseHeader(node *node32) (err error) {
 	node, err = checkrule(node, ruleHeader)
 	if err != nil {
@@ -485,7 +498,7 @@ func (p *parser) parseConstValue(node *node32) (cv *ConstValue, err error) {
 	// DoubleConstant / IntConstant / Literal / Identifier / ConstList / ConstMap
 	switch node.pegRule {
 	case ruleDoubleConstant:
-		double, _ := strconv.ParseFloat(p.pegText(node), 64)
+		double, _ := strconv.ParseFloat(p.ownText(node), 64)
 		return &ConstValue{Type: ConstType_ConstDouble, TypedValue: &ConstTypedValue{Double: &double}}, nil
 	case ruleIntConstant:
 		i, err := strconv.ParseInt(p.pegText(node), 0, 64)
